@@ -106,7 +106,7 @@ def run_entry(run, prog, entry, stub_map, loop_bound=8, max_paths=5000, timeout_
     return res, ex
 
 
-def replay_native(pkgdir, pkgname, harness_files, entry, draws, timeout=600, extra_env=None):
+def replay_native(pkgdir, pkgname, harness_files, entry, draws, timeout=600, extra_env=None, race=False):
     """compile the same harness natively (intrinsics read the draws) and run it with go test -overlay; returns (failed assertion messages, panicked, output)"""
     sc = common.scratch()
     d = tempfile.mkdtemp(prefix='replay_', dir=sc)
@@ -143,11 +143,15 @@ func TestVerifReplay(t *testing.T) {
     env = dict(common.GOENV, VERIF_REPLAY_FILE=rf, VERIF_HARNESS=entry)
     env.update(extra_env or {})
     target = './' + pkgdir if pkgdir not in ('.', '') else '.'
-    p = subprocess.run(['go', 'test', '-vet=off', '-count=1', '-overlay', ovf, '-run', '^TestVerifReplay$', target], cwd=common.REPO, env=env,
+    cmd = ['go', 'test', '-vet=off', '-count=1', '-timeout', '%ds' % max(60, timeout - 30), '-overlay', ovf, '-run', '^TestVerifReplay$', target]
+    if race:
+        cmd.insert(2, '-race')
+        env['CGO_ENABLED'] = '1'
+    p = subprocess.run(cmd, cwd=common.REPO, env=env,
                        stdout=subprocess.PIPE, stderr=subprocess.STDOUT, text=True, timeout=timeout)
     out = p.stdout
     failed = re.findall(r'VERIF-ASSERT-FAILED: (.*)', out)
-    return failed, 'VERIF-PANIC' in out or 'panic:' in out, out
+    return failed, 'VERIF-PANIC' in out or 'panic:' in out or 'WARNING: DATA RACE' in out, out
 
 
 def report(run, ex, pkgdir, pkgname, harness_files, entry, res, keyfn=None, label=None):
